@@ -492,7 +492,8 @@ func (p *parser) parseConstValue(node *node32) (cv *ConstValue, err error) {
 		text := p.pegText(node)
 		for n := node.up; n != nil; n = n.next { // Skip <...> Indent*: the capture may follow a Skip node
 			if n.pegRule == rulePegText {
-				text = string(p.buffer[n.begin:n.end])
+				// the exponent's IntConstant swallows the blanks that follow it inside the capture
+				text = strings.TrimRight(string(p.buffer[n.begin:n.end]), " \t\v")
 				break
 			}
 		}
